@@ -16,4 +16,5 @@ var zzEntries = map[string]func(){
 	"ZZ_C15_clamp":   ZZ_C15_clamp,
 	"ZZ_C15_detect":  ZZ_C15_detect,
 	"ZZ_C15_sites":   ZZ_C15_sites,
+	"ZZ_C05_comp":    ZZ_C05_comp,
 }
